@@ -6,5 +6,5 @@ Require Import ExtrOcamlBasic.
 Extraction Language OCaml.
 Extraction "model.ml"
   N.add N.mul N.div_eucl
-  step run init_state fl_bits fl_of_bits
+  step run init_state cget fl_bits fl_of_bits
   monitor max_fabrics_n max_nets_n.
